@@ -140,7 +140,7 @@ def _table_check(prop, fam, tier, seed, replay, work, known, t0):
             groups[key] = sig
     panics = stats.get("panics") or []
     for p in panics:
-        evs = p["path"]
+        evs = p.get("path") or []
         impl = p["system"].split("#")[0]
         key = (impl, ("Panic",), evs[-1].get("op") if evs else "init", "")
         sig = dict(impl=impl.split("/")[0], system=p["system"], clauses=["Panic"], last_op=key[2], ops=sorted({e.get("op") for e in evs}), events=evs,
